@@ -308,7 +308,18 @@ def t_forced(name, D, N, order, seed):
     fs = ex.ForcedStepper(s)
     a = core.close(np.asarray(fs(u, jnp.zeros_like(u))), np.asarray(s(u)), 1e-12)
     b = core.close(np.asarray(fs(u, f)), np.asarray(s(u + s.dt * f)), 1e-12)
-    return (a and b), ("" if a and b else f"forced stepper: zero-forcing ok={a}, u+dt*f ok={b}")
+    uh, fh = ex.fft(u), ex.fft(f)
+    c = core.close(np.asarray(fs.step_fourier(uh, fh)), np.asarray(s.step_fourier(uh + s.dt * fh)), 1e-12) and \
+        core.close(np.asarray(fs.step(u, f)), np.asarray(s.step(u + s.dt * f)), 1e-12)
+    # the forced stepper inside the trajectory utilities (forcing as per-step aux)
+    fseq = jnp.stack([f, 0.5 * f, -f])
+    got = np.asarray(ex.rollout(fs, 3, takes_aux=True, constant_aux=False)(u, fseq))
+    cur, exp = u, []
+    for i in range(3):
+        cur = s(cur + s.dt * fseq[i]); exp.append(np.asarray(cur))
+    d = core.close(got, np.stack(exp), 1e-11)
+    ok = a and b and c and d
+    return ok, ("" if ok else f"forced stepper: zero-forcing ok={a}, u+dt*f ok={b}, step/step_fourier ok={c}, rollout with a forcing trajectory ok={d}")
 
 
 TESTS = dict(rollout_dtypes=t_rollout_dtypes, rollout_loop=t_rollout_loop, windows=t_windows, repeated=t_repeated, forced=t_forced)
